@@ -106,6 +106,16 @@ def run(ctx):
     t2 = pmap(D.run, [(params(rng), D.random_script(rng, ln), rng.randrange(10 ** 6)) for _ in range(n2)])
     ctx.validate("MD3", t2, "random scripts of update / give_oracle_label calls", sabotage=D.sabotage, replay=rep(t2),
                  nontrivial=lambda t: any(e["state"] == "drift" for e in t["ev"]))
+    # the library's own defaults: a fitted linear sklearn SVC with the built-in margin inclusion signal (the kernel table is computed by an
+    # independent statement of that signal); folds of at least 4 of 6 alternately labelled rows keep both classes in every clone's training set
+    t4 = []
+    for i in range(16 if q else 120):
+        p = {"sensitivity": rng.choice([0.25, 0.5, 1.0, 2.0]), "k": rng.choice([3, 5]), "L": rng.choice([6, 8, 10]), "n0": rng.choice([12, 20, 30]),
+             "clf_mode": "svc", "pmargin": 0.5, "pacc": rng.choice([0.8, 0.95])}
+        t4.append((p, D.random_script(rng, 60 if q else 200), rng.randrange(10 ** 6)))
+    t4 = pmap(D.run, t4)
+    ctx.validate("MD3", t4, "default SVC margin signal: random scripts", sabotage=D.sabotage, replay=rep(t4),
+                 nontrivial=lambda t: any(e["state"] == "drift" for e in t["ev"]))
     ctx.assumptions += ["fold assignment from sklearn KFold(random_state=42); per-row margin / correctness bits are computed with the user's own "
                         "functions under each fold's clone (kernel table)", "deterministic clone-able threshold classifiers"]
     return ctx.finish()
